@@ -30,6 +30,7 @@ const (
 	OpDone
 	OpEgWait
 	OpChoose
+	OpSelect
 )
 
 type chanProbe interface {
@@ -45,6 +46,8 @@ type Op struct {
 	g    *Group
 	ch   chanProbe
 	cx   *Ctx
+	sel  []SelCase
+	def  bool
 }
 
 //go:norace
@@ -67,6 +70,16 @@ func (o *Op) enabled() bool {
 		return o.ch.chClosed()
 	case OpEgWait:
 		return o.g.n == 0
+	case OpSelect:
+		if o.def {
+			return true
+		}
+		for i := range o.sel {
+			if o.sel[i].dir != 0 && o.sel[i].op.enabled() {
+				return true
+			}
+		}
+		return false
 	}
 	return true
 }
@@ -123,6 +136,7 @@ type Result struct {
 	Threads   int
 	Deadlock  bool
 	Horizon   bool
+	Ops       uint64 // hooked operations executed (visible or not)
 	Pruned    bool
 	Diverged  string // non-empty: replay diverged (hard harness error)
 	Panic     string // panic of the code under test (value + stack)
@@ -185,6 +199,7 @@ func Run(cfg Config, body func()) *Result {
 		wd.Stop()
 	}
 	s.res.Threads = len(s.threads)
+	s.res.Ops = s.seq
 	S = nil
 	return s.res
 }
@@ -487,8 +502,19 @@ func Inline(on bool) {
 //
 //go:norace
 func Choose(n int, label string) int {
+	if S == nil || !S.cfg.EnvChoices {
+		return 0
+	}
+	return chooseAlways(n, label)
+}
+
+// chooseAlways is Choose for nondeterminism of the code under test itself (which ready clause
+// of a select fires): explored in every unit, whether or not it asks for environment choices.
+//
+//go:norace
+func chooseAlways(n int, label string) int {
 	s := S
-	if s == nil || s.aborting || n <= 1 || !s.cfg.EnvChoices {
+	if s == nil || s.aborting || n <= 1 {
 		return 0
 	}
 	s.res.Steps++
@@ -587,6 +613,9 @@ func (o *objHash) touchR(code uint64) {
 // stable id joins the persistent set W and the explorer restarts the scenario with every
 // operation on it visible from the start (so no interleaving inside the earlier,
 // optimistically invisible operations is lost).
+// maxOps bounds the hooked operations of one execution, scheduling points or not.
+const maxOps = 1000000
+
 type own struct {
 	owner *Thread
 	w     bool   // shared: all operations are scheduling points
@@ -612,6 +641,11 @@ func (o *own) vis() bool {
 	}
 	s.seq++
 	t := s.cur
+	if s.seq > maxOps {
+		// far beyond anything a scenario does (unbounded recursion / a loop over hooked operations)
+		s.res.Horizon = true
+		abortNow(t)
+	}
 	if o.owner == nil {
 		o.owner = t
 		t.nobj++
